@@ -144,6 +144,17 @@ def memo_soundness(ctx, rep, modules: Optional[Sequence[str]] = None, label: str
         params = [a.arg for a in fn.args.posonlyargs + fn.args.args + fn.args.kwonlyargs]
         kx = astq.expand_locals(key, fn, depth=5)
         vx = astq.expand_locals(val, fn, depth=6)
+        # a value read off a local object (`link.attrib["href"]`, `link.text`): what was stored into that object counts
+        objs = {x.value.id for e in [val] + vx for x in ast.walk(e)
+                if isinstance(x, ast.Attribute) and isinstance(x.value, ast.Name) and x.value.id not in ("self", "cls")}
+        for st in ast.walk(fn):
+            if isinstance(st, ast.Assign):
+                for t in st.targets:
+                    root = t
+                    while isinstance(root, (ast.Attribute, ast.Subscript)):
+                        root = root.value
+                    if isinstance(t, (ast.Attribute, ast.Subscript)) and isinstance(root, ast.Name) and root.id in objs:
+                        vx = vx + [st.value] + astq.expand_locals(st.value, fn, depth=6)
         knames = {x.id for e in kx for x in ast.walk(e) if isinstance(x, ast.Name)}
         ktext = " ".join(ast.unparse(e) for e in kx)
         vnames = {x.id for e in vx for x in ast.walk(e) if isinstance(x, ast.Name)}
@@ -158,6 +169,12 @@ def memo_soundness(ctx, rep, modules: Optional[Sequence[str]] = None, label: str
                     r = py.resolve_method(cls, c.func.attr)
                     if r is not None:
                         state |= _state_reads(py, r[1], cls)
+        # ... and read directly in the value's own expressions (`self.md.current_path`)
+        mstate = _mutable_state_attrs(py)
+        for e in vx:
+            for a in ast.walk(e):
+                if isinstance(a, ast.Attribute) and isinstance(a.ctx, ast.Load) and a.attr in mstate and ast.unparse(a).startswith("self."):
+                    state.add(ast.unparse(a))
         missing_state = sorted(s for s in state if s not in ktext and not s.startswith(cont))
         ok = not missing and not missing_state
         n += 1
@@ -960,6 +977,17 @@ def _template_kind(py, fn: ast.AST, call: ast.Call, repl: ast.AST, depth: int = 
             return "number"
         if _doubles_backslashes(repl):
             return "escaped"
+        # a helper whose every result has its backslashes doubled
+        hq = f"{py.module_of(fn)}.{cn}" if hasattr(py, "func") and "." not in cn else None
+        if hq and py.has_func(hq):
+            h = py.func(hq)
+            rets = [r.value for r in ast.walk(h) if isinstance(r, ast.Return) and r.value is not None]
+            if rets and all(_doubles_backslashes(r) or (isinstance(r, ast.Name) and (lambda d: d is not None and _doubles_backslashes(d))(
+                    _closest_def(h, r.id, r))) for r in rets):
+                return "escaped"
+        if isinstance(repl.func, ast.Attribute) and repl.func.attr == "format" and isinstance(repl.func.value, ast.Constant):
+            ks = {_template_kind(py, fn, call, a, depth + 1) for a in list(repl.args) + [k.value for k in repl.keywords]}
+            return "text" if "text" in ks else "const"
         return "text"
     if isinstance(repl, ast.Attribute):
         # a bound method (self._lookup) is a callable; a data attribute is text
